@@ -11,6 +11,7 @@
   for table facts over the 1 431-type schema.
 -/
 import Stgutg.Model.AperTypes
+import Stgutg.Spec.Ts38413
 
 namespace Stgutg.Builders
 open Stgutg Stgutg.Aper
@@ -20,21 +21,8 @@ inductive Role where
   | amf | ran | psi | psilist | nas | ip | tmsi | plmn | gnbid | bitlen | name | cellid | int | str | pint | val
   deriving DecidableEq, Repr, Inhabited
 
-/-- the TS 38.413 messages that have a builder -/
-inductive Msg where
-  | NGSetupRequest | NGSetupResponse | NGReset | NGResetAcknowledge | InitialUEMessage | ErrorIndication
-  | UEContextReleaseRequest | UEContextReleaseComplete | UEContextModificationResponse | UEContextModificationFailure
-  | UplinkNASTransport | InitialContextSetupResponse | InitialContextSetupFailure | PathSwitchRequest
-  | HandoverRequestAcknowledge | HandoverFailure | HandoverRequired | HandoverNotify | HandoverCancel
-  | PDUSessionResourceReleaseResponse | PDUSessionResourceReleaseCommand | PDUSessionResourceSetupResponse
-  | PDUSessionResourceModifyResponse | PDUSessionResourceModifyIndication | PDUSessionResourceModifyConfirm
-  | PDUSessionResourceNotify | AMFConfigurationUpdate | AMFConfigurationUpdateAcknowledge | AMFConfigurationUpdateFailure
-  | RANConfigurationUpdate | RANConfigurationUpdateAcknowledge | RANConfigurationUpdateFailure
-  | UERadioCapabilityCheckRequest | UERadioCapabilityCheckResponse | UERadioCapabilityInfoIndication
-  | LocationReportingFailureIndication | LocationReport | RRCInactiveTransitionReport | UplinkRANStatusTransfer
-  | NASNonDeliveryIndication | UplinkRANConfigurationTransfer | UplinkUEAssociatedNRPPaTransport
-  | UplinkNonUEAssociatedNRPPaTransport | CellTrafficTrace | OverloadStart | OverloadStop
-  deriving DecidableEq, Repr, Inhabited
+/-- the TS 38.413 messages that have a builder (Spec/Ts38413.lean) -/
+abbrev Msg := Spec.Ts38413.Msg
 
 /-- argument-dependent leaves. `i`, `j` are parameter positions. -/
 inductive Hole where
